@@ -249,6 +249,8 @@ func monitorUCI(sc *UCIScenario, out *UCIOutcome) (vs []Violation, windows []*go
 			}
 		case "LEAK":
 			add("C13", "goroutine-leak", fmt.Sprintf("%d goroutine(s) of the driver still alive after Run returned: %s", e.N, e.Data), e.Seq)
+		case "CONCWRITE":
+			add("C13", "concurrent-write", "two goroutines of the driver were inside Write of the output stream at the same time (one parked waiting for the GUI to read, another entering): a race on the caller's io.Writer, lines can tear or overtake each other", e.Seq)
 		case "STUCK":
 			add("C13", "deadlock", "no party can make progress and no timer is armed, but Run has not returned / a bestmove is owed", e.Seq)
 		case "QUIT-IGNORED":
